@@ -1,5 +1,6 @@
 import ZstdVerif.Model.Huf
 import ZstdVerif.Model.HufEnc
+import ZstdVerif.Model.LitEnc
 import Driver.Util
 /-!
 `zvdriver hufenc`: the encoder-side Huffman model against harness/zvh_hufenc.c.  The code LENGTHS come from the C side (as weights);
@@ -7,6 +8,14 @@ the model derives the code values, the bit stream and the 4-stream layout, and d
   codes <tableLog> <w0,w1,..>                 -> codes=val:nbBits,... weightsOK=<bool>
   enc1  <tableLog> <w0,w1,..> <hex literals>  -> stream=<hex> rt=ok|FAIL weightsOK=<bool>
   enc4  <tableLog> <w0,w1,..> <hex literals>  -> stream=<hex|refused> rt=ok|FAIL|- weightsOK=<bool>
+  whdr  <tableLog> <w0,w1,..> <hex of the tree description HUF_writeCTable_wksp wrote for these weights>
+        -> form=fse|direct hdr=<hex|none> rs=ok|FAIL:<..>
+        the tree description of the MODEL for the weights w0 .. w(maxSymbolValue) (`LitEnc.fseWeights` / `LitEnc.directWeights` of all
+        weights but the last): form=fse when the C description starts with a byte < 128: the normalised counts and the table log - the
+        heuristic part (FSE_optimalTableLog, FSE_normalizeCount), not modelled - are read out of the C description by the decoder model's
+        `FSE.readNCount`, everything else (HUF_compressWeights: FSE_writeNCount, FSE_buildCTable_wksp, FSE_compress_usingCTable with its two
+        interleaved states; the size test and the size byte of HUF_writeCTable_wksp) is the model's; hdr=none when the model would not
+        keep the FSE form.  rs = `Huf.readStats` on the model's description gives the weights, the table log and the size back.
 -/
 namespace Driver.HufEnc
 open ZstdVerif
@@ -37,6 +46,26 @@ def step (_ : Unit) (ws : List String) : Unit × String :=
   | ["codes", lg, wstr] =>
       let weights := parseWeights wstr
       ((), s!"codes={codesLine (HufEnc.codesOf weights lg.toNat!)} weightsOK={HufEnc.weightsOK weights lg.toNat!}")
+  | ["whdr", lg, wstr, hx] =>
+      let weights := parseWeights wstr
+      let log := lg.toNat!
+      let chdr := ByteArray.ofHex hx
+      let huffWeight := weights.toList.dropLast
+      let rs (h : ByteArray) : String :=
+        match Huf.readStats h 0 h.size with
+        | .ok st => if st.weights == weights && st.tableLog == log && st.used == h.size then "ok" else "FAIL:diff"
+        | .error e => s!"FAIL:{e.cls}"
+      if chdr.u8 0 < 128 then
+        match FSE.readNCount chdr 1 (chdr.size - 1) 255 with
+        | .ok nc =>
+          match LitEnc.fseWeights nc.norm nc.tableLog huffWeight with
+          | some h => ((), s!"form=fse hdr={h.toHex} rs={rs h}")
+          | none => ((), "form=fse hdr=none rs=-")
+        | .error e => ((), s!"form=fse hdr=none rs=FAIL:readNCount:{e.cls}")
+      else
+        match LitEnc.directWeights huffWeight with
+        | some h => ((), s!"form=direct hdr={h.toHex} rs={rs h}")
+        | none => ((), "form=direct hdr=none rs=-")
   | [op, lg, wstr, hx] =>
       let weights := parseWeights wstr
       let log := lg.toNat!
